@@ -29,7 +29,11 @@ def run_mutants(prop, names=(), env_extra=None):
             subprocess.run(["rsync", "-a", "--exclude", "tests", "/repo/src",
                             "/repo/config", tmp + "/"], check=True)
             subprocess.run(["patch", "-s", "-p1", "-d", tmp, "-i", diff], check=True)
-            env = dict(os.environ, PV_REPO=tmp)
+            # evidence and replay files of a mutant run go to the scratch directory
+            env = dict(os.environ, PV_REPO=tmp, PV_EVID=os.path.join(tmp, "ev"),
+                       PV_REPLAYS=os.path.join(tmp, "rp"))
+            os.makedirs(env["PV_EVID"])
+            os.makedirs(env["PV_REPLAYS"])
             env.update(env_extra or {})
             p = subprocess.run([os.path.join(core.VERIF, "bin", "verif"), "check",
                                 prop, "--tier", "quick"], env=env, text=True,
@@ -41,9 +45,6 @@ def run_mutants(prop, names=(), env_extra=None):
             res[name] = p.returncode
         finally:
             shutil.rmtree(tmp, ignore_errors=True)
-    # the mutant runs overwrote the evidence and left replay files: remove them
-    for f in glob.glob(os.path.join(core.REPLAYS, prop + "-*.json")):
-        os.unlink(f)
     return res
 
 
